@@ -2111,7 +2111,9 @@ class CParser:
         node = c_ast.Constant("string", tok.value, self._tok_coord(tok))
         while self._peek_type() in _WSTR_LITERAL:
             tok2 = self._advance()
-            node.value = node.value.rstrip()[:-1] + tok2.value[2:]
+            # drop the closing quote of what we have and the prefix (L, u, U
+            # or the two-character u8) and opening quote of the next literal
+            node.value = node.value.rstrip()[:-1] + tok2.value[tok2.value.index('"') + 1 :]
         return node
 
     # ------------------------------------------------------------------
